@@ -662,6 +662,11 @@ func runCase(cs *Case, ci int, pty *ptyPair, em *emu, home string) (alive bool) 
 						}
 					}
 					logj(map[string]any{"ev": "api", "c": cs.ID, "s": si, "what": "History.Delete", "arg": a.S, "sources": dumpSources(), "hname": hname()})
+				case "type":
+					// keys typed while no call is reading (the terminal is in the application's mode): they wait in the tty
+					b := unhex(a.H)
+					logj(map[string]any{"ev": "read", "c": cs.ID, "s": si, "bytes": bytesInts(b), "fault": "", "ahead": true})
+					pty.master.Write(b)
 				case "histdelall":
 					rl.History.Delete()
 					srcs = nil
